@@ -103,7 +103,9 @@ theorem update_failed_restores_framebuffer (v : Variant) (s s' : Sess) (c : Clie
     (hs : s.scr.WF) (hfail : s.failArmed = some c.id) (h : sendUpdate v s c = some (s', some obs)) :
     obs.res = false ∧ s'.scr.fb = s.scr.fb ∧ obs.after = obs.before ∧
     s'.clients = s.clients.filter (fun d => d.id != c.id) := by
-  rcases sendUpdate_cases h with ⟨_, _, e⟩ | ⟨_, scr2, scr3, m, obs', hb, hscr, e, _, _, hbef, haft, _, hres, _, hcl⟩
+  rcases sendUpdate_cases h with ⟨_, _, e⟩ | ⟨_, _, e, _⟩ |
+    ⟨_, scr2, scr3, m, obs', hb, hscr, e, _, _, hbef, haft, _, hres, _, _, hcl⟩
+  · simp at e
   · simp at e
   · simp only [Option.some.injEq] at e; subst e
     have hfb := (bracket_restores hs hb).1
@@ -193,7 +195,8 @@ theorem dirty_covers_old_and_new (v : Variant) (s s' : Sess) (c : Client) (obs :
         obs.upd.mem s.scr.w x y = true) ∧
     (c.modified.mem s.scr.w x y = true → c.requested.mem s.scr.w x y = true →
         obs.upd.mem s.scr.w x y = true) := by
-  rcases sendUpdate_cases h with ⟨_, _, e⟩ | ⟨_, _, _, _, obs', _, _, e, hupd, _⟩
+  rcases sendUpdate_cases h with ⟨_, _, e⟩ | ⟨_, _, e, _⟩ | ⟨_, _, _, _, obs', _, _, e, hupd, _⟩
+  · simp at e
   · simp at e
   · simp only [Option.some.injEq] at e; subst e
     rw [hupd]
@@ -204,7 +207,7 @@ request outstanding, that update is really sent -/
 theorem moved_pointer_is_sent (s : Sess) (c : Client) (hm : softMoved s c = true)
     (hreq : c.requested.nonempty = true) : willSend s c = true := by
   unfold softMoved at hm
-  unfold willSend pending
+  unfold willSend updCalled updProceeds pending
   cases hsh : c.shape <;> simp_all
 
 /-! ## 5. cursor pseudo-rectangles -/
@@ -329,10 +332,14 @@ theorem pos_update_sent (v : Variant) (s s' : Sess) (c : Client) (o : Option Upd
     (hlive : s.failArmed ≠ some c.id) (h : sendUpdate v s c = some (s', o)) :
     ∃ obs, o = some obs ∧ obs.pos = some (rectHeader s.scr.curX s.scr.curY 0 0 encPointerPos) ∧
       ∀ d ∈ s'.clients, d.id = c.id → d.wasMoved = false := by
-  have hw : willSend s c = true := by
-    unfold willSend pending; simp [hp, hmv, hreq]
-  rcases sendUpdate_cases h with ⟨hw', _, _⟩ | ⟨_, scr2, scr3, m, obs, hb, _, e, _, _, _, _, _, _, hpos, hcl⟩
-  · rw [hw] at hw'; simp at hw'
+  have hw1 : updCalled s c = true := by
+    unfold updCalled pending; simp [hp, hmv, hreq]
+  have hw2 : updProceeds s c = true := by
+    unfold updProceeds; simp [hp, hmv]
+  rcases sendUpdate_cases h with ⟨hw', _, _⟩ | ⟨_, hw', _, _⟩ |
+    ⟨_, scr2, scr3, m, obs, hb, _, e, _, _, _, _, _, _, hpos, _, hcl⟩
+  · rw [hw1] at hw'; simp at hw'
+  · rw [hw2] at hw'; simp at hw'
   · obtain ⟨_, _, g3, g4⟩ := bracket_scr2 hs hb
     refine ⟨obs, e, ?_, ?_⟩
     · rw [hpos]; simp [hp, hmv, cursorPosRect, g3, g4]
@@ -353,9 +360,11 @@ theorem ptr_event_ignored_while_other_holds_button (s : Sess) (id p x y b : Nat)
 /-! ## 7. the client's picture, over whole histories -/
 
 /-- **history_invariant**: start from any well-formed screen with no clients and apply any
-history of operations — clients connecting (raw / XCursor / RichCursor), pointer events of any
-client at any position, update requests, application drawing, cursor replacement (any well-formed
-cursor or none), event-loop rounds with or without an injected write failure.  Then (as long as no
+history of operations — clients connecting with any SetEncodings list in any order and any pixel
+format, SetEncodings sent again, pointer events of any client at any position, update requests,
+application drawing, cursor replacement (any well-formed cursor or none), event-loop rounds with or
+without an injected write failure (no rfbDoCopyRect/rfbScheduleCopyRect: see
+`copy_never_drags_cursor` and property C02 for those).  Then (as long as no
 cursor conversion for a cursor-shape client fails) the session invariant `SessInv` holds at the
 end: the screen is well-formed and for every client and every screen pixel, EITHER the pixel is in
 the client's pending `modifiedRegion` (it will be sent with the next covering request) OR the
@@ -367,11 +376,11 @@ screen's in every update, old and new box being resent) this is "the client's pi
 framebuffer with the cursor laid over it, following the pointer when it moves". -/
 theorem history_invariant (s0 : Sess) (hs0 : s0.scr.WF) (hc0 : s0.clients = []) (ops : List Op)
     (s : Sess) (h : runOps Variant.fixed s0 ops = some s) : SessInv Variant.fixed s :=
-  runOps_inv rfl (sessInv_init hs0 hc0) h
+  (runOps_inv rfl (sessInv_init hs0 hc0) (by rw [SessNoCopy, hc0]; intro c hc; simp at hc) h).1
 
 example : ∃ ops : List Op, ops.length = 6 ∧
     (runOps Variant.fixed ⟨witnessScreen, [], none, none⟩ ops).isSome := by
-  refine ⟨[.client 0 .raw none, .client 1 .rich (some (⟨31, 63, 31, 11, 5, 0⟩, 2)), .ptr 0 2 0 0, .req 0 true ⟨0, 0, 3, 2⟩, .req 1 false ⟨0, 0, 3, 2⟩, .pump],
+  refine ⟨[.client 0 [.copyRect, .raw] none, .client 1 [.pointerPos, .raw, .richCursor] (some (⟨31, 63, 31, 11, 5, 0⟩, 2)), .ptr 0 2 0 0, .req 0 true ⟨0, 0, 3, 2⟩, .req 1 false ⟨0, 0, 3, 2⟩, .pump],
     rfl, ?_⟩
   decide +kernel
 
@@ -481,5 +490,51 @@ theorem rich_x_rich_roundtrip (f : Format) (bpp : Nat) (c c' : Cursor) (rich ric
   rich_x_rich hr hsz hni hne h2 hx hback
 
 example : (⟨255, 255, 255, 0, 8, 16⟩ : Format).Packed 8 8 8 ∧ 8 + 8 + 8 ≤ 8 * 3 := ⟨⟨rfl, rfl, rfl, rfl, rfl, rfl⟩, by decide⟩
+
+/-! ## 10. SetEncodings: order independence; CopyRect and the painted cursor -/
+
+/-- **setenc_flags_closed_form**: after a SetEncodings message the cursor flags are: cursor-shape
+updates iff XCursor or RichCursor is listed; rich iff RichCursor is listed; position updates iff
+PointerPos is listed together with a cursor-shape encoding; shape due iff shape updates are on;
+position due if PointerPos is listed — wherever in the list each encoding stands -/
+theorem setenc_flags_closed_form (w0 : Bool) (l : List Enc) :
+    encFlags w0 l =
+      { shape := hasShape l, useRich := l.contains .richCursor,
+        posUpd := l.contains .pointerPos && hasShape l,
+        wasMoved := w0 || l.contains .pointerPos, wasChanged := hasShape l,
+        useCopyRect := l.contains .copyRect, marked := hasShape l } :=
+  encFlags_closed w0 l
+
+/-- **setenc_order_independent**: two SetEncodings lists that are permutations of each other have
+exactly the same effect on the session (flags, marked regions, everything) -/
+theorem setenc_order_independent (v : Variant) (s : Sess) (id : Nat) (l l' : List Enc) (h : l.Perm l') :
+    setEncodings v s id l = setEncodings v s id l' :=
+  setEncodings_perm h v s id
+
+/-- in particular: PointerPos listed before or after the cursor-shape encoding — position updates
+are enabled and a position update is due either way -/
+theorem pointerpos_before_shape_enabled (w0 : Bool) :
+    (encFlags w0 [.raw, .pointerPos, .richCursor, .xCursor]).posUpd = true ∧
+    (encFlags w0 [.raw, .pointerPos, .richCursor, .xCursor]).wasMoved = true ∧
+    encFlags w0 [.raw, .pointerPos, .richCursor, .xCursor] = encFlags w0 [.raw, .richCursor, .xCursor, .pointerPos] := by
+  cases w0 <;> decide
+
+/-- **copy_never_drags_cursor**: rfbScheduleCopyRegion for a soft-cursor client that accepts
+CopyRect marks as modified every pixel of the scheduled copy whose destination or whose SOURCE lies
+under the cursor painted in the client's picture (any cursor size, mask, hot-spot; any displacement);
+and what rfbSendFramebufferUpdate then sends as CopyRect lies inside the scheduled copy and outside
+the modified region — so a CopyRect neither overwrites nor drags along the painted cursor -/
+theorem copy_never_drags_cursor (s : Sess) (c : Client) (dst : Rgn) (dx dy : Int) (cur : Cursor)
+    (hcr : c.useCopyRect = true) (hsh : c.shape = false) (hcur : s.scr.cursor = some cur)
+    (x y : Nat) (hx : x < s.scr.w) (hy : y < s.scr.h)
+    (hbox : rawBox cur c.curX c.curY x y = true ∨
+            rawBox cur c.curX c.curY ((x : Int) - dx) ((y : Int) - dy) = true) :
+    (updCopyRegion s (clientScheduleCopy s.scr c dst dx dy)).mem s.scr.w x y = false := by
+  cases h : (updCopyRegion s (clientScheduleCopy s.scr c dst dx dy)).mem s.scr.w x y with
+  | false => rfl
+  | true =>
+    obtain ⟨h1, h2⟩ := updCopyRegion_subset hx hy h
+    rw [scheduleCopy_marks_cursor hcr hsh hcur hx hy h1 hbox] at h2
+    simp at h2
 
 end VncModel.Props.C15
